@@ -19,6 +19,7 @@ var C17SchemaBool = []string{
 	"iface", "ifaceChain", "union", "enum", "input", "lists", "defaults", "dirType", "dirExec",
 	"builtinDir", "mutation", "subscription", "extend", "scalars", "idKeyword", "idInitialism",
 	"idUnderscore", "idEnumClash", "idTypeClash",
+	"handInModel", // SchemaLate of the spec
 }
 
 // C17YamlBool are the ConfigBool factors that are literally boolean keys of gqlgen.yml.
@@ -32,7 +33,7 @@ var C17YamlBool = []string{
 	"skip_validation",
 }
 
-var C17OtherBool = []string{"execFollow", "omit_template_comment", "struct_tag", "stub"}
+var C17OtherBool = []string{"execFollow", "omit_template_comment", "struct_tag", "stub", "autobindModel"}
 
 var C17Multi = []string{"worker_limit", "go_initialisms", "models", "resolver"}
 
@@ -211,6 +212,6 @@ func (r C17Row) ClassKey() string {
 	if p := r.Probe(); p != "" {
 		return "probe:" + p
 	}
-	return fmt.Sprintf("wl=%d/init=%s/models=%s/resolver=%s/execFollow=%v/stub=%v/features=%d/opts=%d",
-		r.I("worker_limit"), r.S("go_initialisms"), r.S("models"), r.S("resolver"), r.B("execFollow"), r.B("stub"), ns, nc)
+	return fmt.Sprintf("wl=%d/init=%s/models=%s/resolver=%s/execFollow=%v/stub=%v/autobindModel=%v/features=%d/opts=%d",
+		r.I("worker_limit"), r.S("go_initialisms"), r.S("models"), r.S("resolver"), r.B("execFollow"), r.B("stub"), r.B("autobindModel"), ns, nc)
 }
